@@ -198,3 +198,8 @@ Proof.
   - right. split; [lia|exact H].
   - destruct (IH t u H) as [[-> ->]|[Hne E]]; [left; auto|right; split; [lia|exact E]].
 Qed.
+
+Lemma sumf_ge {A} (f : A -> nat) ls t l : nth_error ls t = Some l -> (f l <= sumf f ls)%nat.
+Proof.
+  intros H. destruct (upd_split ls t l l H) as (l1 & l2 & E1 & _ & _). rewrite E1, sumf_app. cbn. lia.
+Qed.
